@@ -547,30 +547,69 @@ def r10(ctx, P):
             if a.get('op') == 'un' and a['o'] == '&':
                 lenvars.add(strip_casts(a['k'][0]).get('name'))
         san = set()
+        gate_blocks = []
+        params = {p['name'] for p in f.params}
+
+        def mentions(e, names, b):
+            """names (directly or through locals defined from them) mentioned by e"""
+            out = set()
+            for nm in names:
+                if df.derives(f, e, lambda nd, nm=nm: nd.get('op') == 'ref' and nd.get('name') == nm, *df.cond_pos(b), must=False):
+                    out.add(nm)
+            return out
         for b in f.blocks.values():
             e = strip_casts(b.cond) if b.cond else None
             if e is None or e.get('op') != 'bin' or e['o'] not in ('>', '>=', '<', '<='):
                 continue
-            l, r = e['k']
-            lv, rv = var_of(f, l), var_of(f, r)
-            o = e['o']
-            other = None
-            if rv in lenvars:
-                other = l
-            elif lv in lenvars:
-                other = r
-                o = {'>': '<', '<': '>', '>=': '<=', '<=': '>='}[o]
-            if other is None:
+            m = mentions(e, lenvars | {start, length_like}, b)
+            if not (m & lenvars) or not (m & {start, length_like}):
                 continue
-            if not df.derives(f, other, lambda nd: nd.get('op') == 'ref' and nd.get('name') == start, *df.cond_pos(b), must=False):
-                continue
-            if not df.derives(f, other, lambda nd: nd.get('op') == 'ref' and nd.get('name') == length_like, *df.cond_pos(b), must=False):
-                continue
-            san.add((b.id, 'F' if o in ('>', '>=') else 'T'))
+            # the edge that leads straight to an error return is the rejecting one
+            for i_, (s_, label) in enumerate(b.succs):
+                nb = s_
+                hops = 0
+                while len(nb.succs) == 1 and not any(ev.k == 'ret' for ev in nb.events) and hops < 6:
+                    nb = nb.succs[0][0]
+                    hops += 1
+                rets = [ev for ev in nb.events if ev.k == 'ret']
+                if rets and ret_class(f, rets[0], frozenset()) == 'nonzero':
+                    other = b.succs[1 - i_][1]
+                    gate_blocks.append((b, m))
+                    san.add((b.id, other))
+        # together the gates must involve the start and the length
+        covered = set()
+        for b, m in gate_blocks:
+            covered |= m
+        if not ({start, length_like} <= covered):
+            san = set()
         w = unguarded(san) if san else 'no compare of start+length with the signal length'
         ctx.ob('C10.10', w is None, fname, 'window end beyond the signal rejected before the buffer is used', f.where(),
                'gate present on every path' if w is None else ('%s' % (w if isinstance(w, str) else 'the output buffer is reachable without the end-of-signal check')),
                w.render() if (w is not None and not isinstance(w, str)) else None)
+        # (2b) the window gates are written in overflow-free form: no sum or product of two non-constant quantities one of
+        # which is an API parameter is formed inside a gate compare (start + length wraps for values near INT64_MAX)
+        bad_forms = []
+        for b, m in gate_blocks:
+            stack = [strip_casts(b.cond)]
+            seen_ids = set()
+            while stack:
+                nd = stack.pop()
+                if nd is None or id(nd) in seen_ids:
+                    continue
+                seen_ids.add(id(nd))
+                if nd.get('op') == 'ref' and nd.get('rk') == 'local':
+                    r_ = df.resolve_local(f, nd, b, len(b.events))
+                    if r_ is not None and r_ is not nd:
+                        stack.append(strip_casts(r_))
+                    continue
+                if nd.get('op') == 'bin' and nd['o'] in ('+', '*') and const_of(nd['k'][0]) is None and const_of(nd['k'][1]) is None:
+                    if any(x.get('op') == 'ref' and x.get('rk') == 'param' and x.get('name') in params for k_ in nd['k'] for x in walk(k_)):
+                        bad_forms.append(show(nd)[:60])
+                for k_ in kids(nd):
+                    stack.append(strip_casts(k_))
+        ctx.ob('C10.10', not bad_forms and bool(gate_blocks), fname, 'window gates are overflow-free', f.where(),
+               '%d gate compare(s) in subtraction / division form' % len(gate_blocks) if (not bad_forms and gate_blocks) else
+               ('the gate computes %s from caller-supplied 64-bit values before anything bounds them: it wraps for large values and the check passes' % bad_forms[0] if bad_forms else 'no window gate found'))
         # (3) increment > 0 where there is one
         if any(p['name'] == 'increment' for p in f.params):
             san = set()
